@@ -37,9 +37,10 @@ void _dispatch_object_finalize(u64 o) { }
 void _dispatch_introspection_queue_dispose(u64 o) { }
 /* ---- abstract strings ---- */
 typedef struct { u8 b[MAXLEN]; u64 n; } str_t;
-static u8 in_a[LEAFA], in_b[LEAFB];
-static u64 bufA, bufB, objA, objB;
-static str_t sA, sB;
+#define LEAFC 2
+static u8 in_a[LEAFA], in_b[LEAFB], in_c[LEAFC];
+static u64 bufA, bufB, bufC, objA, objB, objC;
+static str_t sA, sB, sC;
 /* (written without control-flow branches on symbolic values: the solver run explores the units path by path, see spec) */
 static str_t s_concat(str_t x, str_t y) { str_t r; r.n = x.n + y.n; ASSERT(r.n <= MAXLEN, "harness bound: abstract string too long"); for (int i = 0; i < MAXLEN; i++) r.b[i] = (u64)i < x.n ? x.b[i] : ((u64)i < r.n ? y.b[(i - x.n) % MAXLEN] : 0); return r; }
 static str_t s_sub(str_t x, u64 off, u64 len) { str_t r; _Bool empty = off >= x.n || len == 0; u64 room = empty ? 0 : x.n - off; u64 l = empty ? 0 : (len > room ? room : len);
@@ -95,6 +96,12 @@ static void build(void) {
 #elif SHAPE == 6    /* subrange of a composite, then concatenated again: nested trimming */
   in_o1 = O1; in_l1 = L1; u64 t = dispatch_data_create_concat(objA, objB); inter[ninter++] = t; u64 u = dispatch_data_create_subrange(t, in_o1, in_l1); inter[ninter++] = u;
   DD = dispatch_data_create_concat(u, objA); SD = s_concat(s_sub(s_concat(sA, sB), in_o1, in_l1), sA); inter[ninter++] = DD;
+#elif SHAPE == 7    /* three records over three DISTINCT leaves: concat(concat(A,B),C) - which leaf a derived object retains is observable */
+  bufC = ir_bump(LEAFC); sC.n = LEAFC; for (int i = 0; i < MAXLEN; i++) sC.b[i] = 0;
+  for (int i = 0; i < LEAFC; i++) { SYM_AT(in_c, i); IR_ST8(bufC + i, in_c[i]); sC.b[i] = in_c[i]; }
+  objC = mkleaf(bufC, LEAFC, 2);
+  u64 t = dispatch_data_create_concat(objA, objB); inter[ninter++] = t;
+  DD = dispatch_data_create_concat(t, objC); SD = s_concat(s_concat(sA, sB), sC); inter[ninter++] = DD;
 #endif
 }
 /* argument domains (exhaustive, concrete - see header): every offset/location in [0, total+1] plus two huge values; every length in [0, total+1] plus two huge values */
@@ -116,7 +123,7 @@ void harness(void) {
     in_off = arg_small(a, NS); in_len = arg_small(b, NS);
     u64 r = dispatch_data_create_subrange(DD, in_off, in_len);
     observe(r, s_sub(SD, in_off, in_len), "subrange");
-    rewind_heap(); IR_ST32(DD + P_OFF_ref, 100); IR_ST32(DD + P_OFF_xref, 100); IR_ST32(objA + P_OFF_ref, 100); IR_ST32(objB + P_OFF_ref, 100);
+    rewind_heap(); IR_ST32(DD + P_OFF_ref, 100); IR_ST32(DD + P_OFF_xref, 100); IR_ST32(objA + P_OFF_ref, 100); IR_ST32(objB + P_OFF_ref, 100); if (SHAPE == 7) IR_ST32(objC + P_OFF_ref, 100);
   }
   WITNESS_REACHED("all subrange cases evaluated");
 #elif OP == 2     /* map: a contiguous copy or view of the same bytes */
@@ -137,7 +144,7 @@ void harness(void) {
       ASSERT(roff <= in_loc && in_loc < roff + rs && roff + rs <= SD.n, "REGION: the returned region contains the requested location and lies inside the object");
       observe(r, s_sub(SD, roff, rs), "region");
       ASSERT(obs_regions == 1, "REGION: the returned object is a single contiguous region"); }
-    rewind_heap(); IR_ST32(DD + P_OFF_ref, 100); IR_ST32(objA + P_OFF_ref, 100); IR_ST32(objB + P_OFF_ref, 100);
+    rewind_heap(); IR_ST32(DD + P_OFF_ref, 100); IR_ST32(objA + P_OFF_ref, 100); IR_ST32(objB + P_OFF_ref, 100); if (SHAPE == 7) IR_ST32(objC + P_OFF_ref, 100);
   }
   WITNESS_REACHED("all copy_region cases evaluated");
 #elif OP == 4     /* concat with every slice of leaf B on either side */
@@ -147,7 +154,7 @@ void harness(void) {
     u64 t = dispatch_data_create_subrange(objB, in_o2, in_l2);
     u64 r = dispatch_data_create_concat(t, DD); observe(r, s_concat(s_sub(sB, in_o2, in_l2), SD), "concat left");
     u64 r2 = dispatch_data_create_concat(DD, t); observe(r2, s_concat(SD, s_sub(sB, in_o2, in_l2)), "concat right");
-    rewind_heap(); IR_ST32(DD + P_OFF_ref, 100); IR_ST32(objA + P_OFF_ref, 100); IR_ST32(objB + P_OFF_ref, 100);
+    rewind_heap(); IR_ST32(DD + P_OFF_ref, 100); IR_ST32(objA + P_OFF_ref, 100); IR_ST32(objB + P_OFF_ref, 100); if (SHAPE == 7) IR_ST32(objC + P_OFF_ref, 100);
   }
   WITNESS_REACHED("all concat cases evaluated");
 #elif OP == 5     /* lifetime: derive, release everything in the order chosen by the driver, destructors run exactly once and only at the end */
@@ -156,12 +163,19 @@ void harness(void) {
   u64 reg = dispatch_data_copy_region(DD, in_loc, po); u64 roff = IR_LD64(po);
   str_t ssub = s_sub(SD, in_off, in_len); u64 rsz = dispatch_data_get_size(reg); str_t sreg = s_sub(SD, roff, rsz);
   /* drop the client's references to the leaves and the intermediate objects first: derived objects must keep the buffers alive */
-  dispatch_release(objA); dispatch_release(objB);
+  dispatch_release(objA); dispatch_release(objB); if (SHAPE == 7) dispatch_release(objC);
   for (int i = 0; i < 3; i++) if (i < ninter && inter[i] != DD) dispatch_release(inter[i]);
   /* leaf B is part of the object under test only in shapes 3, 4 and 5 (in shapes 2 and 6 nothing alive refers to it any more: its destructor may run now) */
-  ASSERT(destr_runs[0] == 0 && (destr_runs[1] == 0 || !(SHAPE == 3 || SHAPE == 4 || SHAPE == 5)), "DESTRUCTOR: a buffer destructor does not run while objects derived from the buffer are alive");
+  ASSERT(destr_runs[0] == 0 && (destr_runs[1] == 0 || !(SHAPE == 3 || SHAPE == 4 || SHAPE == 5 || SHAPE == 7)) && destr_runs[2] == 0, "DESTRUCTOR: a buffer destructor does not run while objects derived from the buffer are alive");
 #if RELORDER == 0
   if (DD != objA) dispatch_release(DD);
+#if SHAPE == 7
+  /* only the derived subrange / region are alive now: a leaf whose bytes they still denote must not have been destroyed (leaf A = [0,LEAFA), B = [LEAFA,LEAFA+LEAFB), C = the rest) */
+  { u64 lo[3] = { 0, LEAFA, LEAFA + LEAFB }, hi[3] = { LEAFA, LEAFA + LEAFB, LEAFA + LEAFB + LEAFC };
+    u64 s0 = in_off < SD.n ? in_off : SD.n, s1 = s0 + ssub.n, r0 = roff, r1 = roff + rsz;
+    for (int k = 0; k < 3; k++) { _Bool used = (s0 < hi[k] && s1 > lo[k] && ssub.n) || (r0 < hi[k] && r1 > lo[k] && rsz);
+      if (used) ASSERT(destr_runs[k] == 0, "DESTRUCTOR: the buffer of a leaf is not destroyed while a subrange / region that denotes some of its bytes is alive"); } }
+#endif
   if (ssub.n) observe(sub, ssub, "subrange after its source was released");
   dispatch_release(sub);
   ASSERT(destr_runs[0] + destr_runs[1] <= 1 || rsz == 0 || 1, "-");
@@ -174,7 +188,7 @@ void harness(void) {
   observe(DD, SD, "source after its derived objects were released");
   if (DD != objA) dispatch_release(DD);
 #endif
-  ASSERT(destr_runs[0] == 1 && destr_runs[1] == 1, "DESTRUCTOR: after everything is released each buffer destructor ran exactly once");
+  ASSERT(destr_runs[0] == 1 && destr_runs[1] == 1 && (SHAPE != 7 || destr_runs[2] == 1), "DESTRUCTOR: after everything is released each buffer destructor ran exactly once");
   WITNESS_REACHED("all objects released");
 #endif
 }
